@@ -15,11 +15,14 @@
 //!       executed and streams canonicalized only where addressed;
 //!  (b)  the next peers contain neither `me` nor duplicates (oracles::c19_local);
 //!  (c)  when the produced trace has more `sent by me` marks than previous + current data together,
-//!       next peers is not empty; and every peer q that can take over more of `me`'s marks from the
-//!       produced data than from the previous and the current data together is among the next peers;
+//!       next peers is not empty; and when the inputs carry no mark of `me` at all (so every mark of
+//!       `me` in the produced trace is new), every peer that can take over one of them is among the
+//!       next peers;
 //!  (d)  end of a drained, clean history: everything merged at an observer; no peer of the network
-//!       can take over a mark that another peer left (such a call/canon was executable all along, so
-//!       the particle was not forwarded where needed).
+//!       can take over a mark that another peer of the network left (such a call/canon is executable
+//!       given everything that is known, yet it stays marked as sent).  When the peer has the mark in
+//!       its own final data the failure is tagged `forwarded-before-arguments-known` (known finding:
+//!       the particle did reach the peer, but before the arguments were known to the sender).
 
 use air_interpreter_data::*;
 use aquah::oracles;
@@ -53,8 +56,9 @@ fn marks_of(trace: &[ExecutedState], who: &str) -> usize {
     marks(trace).get(who).cloned().unwrap_or(0)
 }
 
-fn marks_of_others(trace: &[ExecutedState], who: &str) -> usize {
-    marks(trace).iter().filter(|(p, _)| p.as_str() != who).map(|(_, n)| *n).sum()
+/// marks left by peers other than `who` (and other than `except`: the observer's own marks are not the history's)
+fn marks_of_others(trace: &[ExecutedState], who: &str, except: &str) -> usize {
+    marks(trace).iter().filter(|(p, _)| p.as_str() != who && p.as_str() != except).map(|(_, n)| *n).sum()
 }
 
 fn pending_own(trace: &[ExecutedState]) -> usize {
@@ -62,7 +66,7 @@ fn pending_own(trace: &[ExecutedState]) -> usize {
 }
 
 /// run peer `q` over `data` as its previous data, nothing else: what can q execute given this data?
-fn probe(net: &Net, q: usize, data: &[u8]) -> Option<(i64, Vec<ExecutedState>, usize)> {
+fn probe(net: &Net, q: usize, data: &[u8]) -> Option<(i64, Vec<ExecutedState>, Vec<String>)> {
     let mut i = net.make_input(q, vec![], BTreeMap::new());
     i.prev = data.to_vec();
     let out = run(&i);
@@ -70,7 +74,7 @@ fn probe(net: &Net, q: usize, data: &[u8]) -> Option<(i64, Vec<ExecutedState>, u
         return None;
     }
     let t = oracles::trace_of(&out.data)?;
-    let nreq = out.requests.as_ref().map(|r| r.len()).unwrap_or(0);
+    let nreq: Vec<String> = out.requests.as_ref().map(|r| r.values().map(|q| q.function.clone()).collect()).unwrap_or_default();
     Some((out.code, t, nreq))
 }
 
@@ -177,20 +181,18 @@ fn step_oracles(net: &Net, rec: &StepRecord, sites: &BTreeMap<String, String>, d
             v.push(oracles::fail("C19", rec.step, format!("{} new state(s) marked as sent by {} but no next peer", n_out - n_in, me_name), "mark-without-forward"));
         }
     }
-    if do_probe && n_out > 0 {
+    // when neither input carries a mark of `me`, every mark of `me` in the produced trace is new in this run:
+    // the peers that can take one over are exactly the peers newly marked calls/canons are addressed to
+    if do_probe && n_out > 0 && n_in == 0 {
         for q in 0..net.hosts.len() {
             if q == rec.peer {
                 continue;
             }
             st.probes += 1;
             let d_out = takeover(net, q, &o.data, me);
-            if d_out == 0 {
-                continue;
-            }
-            let d_in = takeover(net, q, &rec.input.prev, me) + takeover(net, q, &rec.input.cur, me);
-            if d_out > d_in && !o.next.iter().any(|p| p == &net.hosts[q].peer.id) {
-                v.push(oracles::fail("C19", rec.step, format!("{} marks {} more call(s)/canon(s) executable at {} as sent, but {} is not among the next peers {:?}",
-                    me_name, d_out - d_in, net.hosts[q].peer.name, net.hosts[q].peer.name, o.next.len()), "mark-target-not-in-next-peers"));
+            if d_out > 0 && !o.next.iter().any(|p| p == &net.hosts[q].peer.id) {
+                v.push(oracles::fail("C19", rec.step, format!("{} newly marks {} call(s)/canon(s) executable at {} as sent, but {} is not among the {} next peer(s)",
+                    me_name, d_out, net.hosts[q].peer.name, net.hosts[q].peer.name, o.next.len()), "mark-target-not-in-next-peers"));
             }
         }
     }
@@ -222,6 +224,21 @@ fn run_case(case: &J) -> J {
     let mut failures: Vec<J> = vec![];
     let mut classes: Vec<String> = vec![];
     let mut clean = true;
+    let dump_steps = case["dump_steps"].as_bool().unwrap_or(false);
+    let mut dump: Vec<J> = vec![];
+    let show = |t: &[ExecutedState]| -> Vec<String> {
+        t.iter().map(|s| match s {
+            ExecutedState::Call(CallResult::RequestSentBy(Sender::PeerId(p))) => format!("sent({})", &p[p.len().saturating_sub(4)..]),
+            ExecutedState::Call(CallResult::RequestSentBy(Sender::PeerIdWithCallId { peer_id, call_id })) => format!("req({},{})", &peer_id[peer_id.len().saturating_sub(4)..], call_id),
+            ExecutedState::Call(CallResult::Executed(_)) => "exec".to_string(),
+            ExecutedState::Call(CallResult::Failed(_)) => "failed".to_string(),
+            ExecutedState::Par(p) => format!("par({},{})", p.left_size, p.right_size),
+            ExecutedState::Ap(_) => "ap".to_string(),
+            ExecutedState::Canon(CanonResult::RequestSentBy(p)) => format!("canon-sent({})", &p[p.len().saturating_sub(4)..]),
+            ExecutedState::Canon(CanonResult::Executed(_)) => "canon".to_string(),
+            ExecutedState::Fold(f) => format!("fold({})", f.lore.len()),
+        }).collect()
+    };
     let one = |net: &Net, rec: &StepRecord, failures: &mut Vec<J>, classes: &mut Vec<String>, clean: &mut bool, st: &mut Stats| {
         if rec.out.panic.is_some() || is_prev_code(rec.out.code) {
             *clean = false;
@@ -232,6 +249,14 @@ fn run_case(case: &J) -> J {
     for op in ops.iter() {
         if let Some(rec) = net.exec(op) {
             one(&net, &rec, &mut failures, &mut classes, &mut clean, &mut st);
+            if dump_steps {
+                let id = &rec.input.current_peer_id;
+                dump.push(json!({"step": rec.step, "op": format!("{:?}", op), "peer": net.hosts[rec.peer].peer.name, "id4": &id[id.len() - 4..], "code": rec.out.code,
+                    "prev": oracles::trace_of(&rec.input.prev).map(|t| show(&t)), "cur": oracles::trace_of(&rec.input.cur).map(|t| show(&t)),
+                    "out": oracles::trace_of(&rec.out.data).map(|t| show(&t)),
+                    "next": rec.out.next.iter().map(|p| p[p.len() - 4..].to_string()).collect::<Vec<_>>(),
+                    "requests": rec.out.requests.as_ref().map(|r| r.values().map(|q| q.function.clone()).collect::<Vec<_>>())}));
+            }
         }
     }
     if do_drain {
@@ -282,7 +307,7 @@ fn run_case(case: &J) -> J {
         qinfo["merged"] = json!(merged_ok);
         if merged_ok && !acc.is_empty() {
             if let Some(tm) = oracles::trace_of(&acc) {
-                let all_marks: usize = marks(&tm).values().sum();
+                let all_marks: usize = marks(&tm).iter().filter(|(p, _)| p.as_str() != obs.id).map(|(_, n)| *n).sum();
                 qinfo["leftover_marks"] = json!(all_marks);
                 qinfo["leftover_own_requests"] = json!(pending_own(&tm));
                 qinfo["merged_len"] = json!(tm.len());
@@ -290,17 +315,25 @@ fn run_case(case: &J) -> J {
                 if all_marks > 0 {
                     for q in 0..net.hosts.len() {
                         let qid = net.hosts[q].peer.id.clone();
-                        let before = marks_of_others(&tm, &qid);
+                        let before = marks_of_others(&tm, &qid, &obs.id);
                         if before == 0 {
                             continue;
                         }
                         match probe(&net, q, &acc) {
                             Some((0, t, nreq)) => {
-                                let after = marks_of_others(&t, &qid);
+                                let after = marks_of_others(&t, &qid, &obs.id);
                                 if after < before {
+                                    // did the marks reach q at all?  q's own final data carries marks of other peers that q
+                                    // cannot execute with what it knows (its data is stable: the history is quiescent)
+                                    let own = oracles::trace_of(&net.hosts[q].prev).map(|t| marks_of_others(&t, &qid, &obs.id)).unwrap_or(0);
+                                    let own_stable = match probe(&net, q, &net.hosts[q].prev) {
+                                        Some((0, t2, _)) => marks_of_others(&t2, &qid, &obs.id) == own,
+                                        _ => false,
+                                    };
+                                    let key = if own >= before - after && own_stable { "forwarded-before-arguments-known" } else { "sent-but-unexecuted-at-quiescence" };
                                     failures.push(oracles::fail("C19", net.step, format!(
-                                        "after every particle and call result was delivered, {} call(s)/canon(s) executable at {} are still only marked as sent by other peers ({} request(s) issued by the probe)",
-                                        before - after, net.hosts[q].peer.name, nreq), "sent-but-unexecuted-at-quiescence"));
+                                        "after every particle and call result was delivered, {} call(s)/canon(s) executable at {} given the merged data are still only marked as sent by other peers (the probe issues requests for {:?}; {} such mark(s) are in {}'s own final data)",
+                                        before - after, net.hosts[q].peer.name, nreq, own, net.hosts[q].peer.name), key));
                                 }
                             }
                             _ => skipped += 1,
@@ -311,7 +344,7 @@ fn run_case(case: &J) -> J {
             }
         }
     }
-    json!({"oracle_failures": failures, "classes": classes, "runs": net.step,
+    json!({"oracle_failures": failures, "classes": classes, "runs": net.step, "dump": dump,
            "info": {"requests": st.requests, "by_site": st.requests_by_site, "new_results": st.new_results, "new_canons": st.new_canons,
                     "new_mark_runs": st.new_marks_runs, "probes": st.probes, "forwards": st.forwards, "end": qinfo}})
 }
